@@ -18,8 +18,22 @@ def main():
     p = os.path.join(ROOT, "tools", "not_applicable.json")
     if os.path.exists(p):
         overrides = json.load(open(p))
+    hold = {}
+    hp = os.path.join(ROOT, "tools", "hold.json")
+    if os.path.exists(hp):
+        hold = json.load(open(hp))
+    claimed = None
+    cp = os.path.join(ROOT, "tools", "claimed.json")
+    if os.path.exists(cp):
+        claimed = set(json.load(open(cp)))
     for pr in props:
         pid = pr["id"]
+        if pid in hold:
+            na.append({"property_id": pid, "reason": "not claimed in this commit: " + hold[pid]})
+            continue
+        if claimed is not None and pid not in claimed and os.path.exists(os.path.join(ROOT, "harness", "sfv", "props", pid.lower() + ".py")):
+            na.append({"property_id": pid, "reason": "not claimed in this commit: the check exists (harness/sfv/props/%s.py) but has not yet passed the integrator's multi-seed run on the unchanged tree" % pid.lower()})
+            continue
         try:
             mod = importlib.import_module(f"sfv.props.{pid.lower()}")
         except ModuleNotFoundError:
